@@ -211,7 +211,7 @@ def h_blocks(k: int, N: int, m0: int, L1: int, L2: int, L3: int, o: int, t: int)
 
 def h_preset(k: int, L1: int, L2: int, L3: int, o: int, t: int) -> int:
     """
-    pre: 2 <= k <= 3 and 7 <= L1 <= 12 and 7 <= L2 <= 12 and 7 <= L3 <= 12
+    pre: 2 <= k <= 3 and 1 <= L1 <= 12 and 1 <= L2 <= 12 and 1 <= L3 <= 12
     pre: 0 <= o and 0 <= t < 8
     post: _ == 1
     """
@@ -221,8 +221,14 @@ def h_preset(k: int, L1: int, L2: int, L3: int, o: int, t: int) -> int:
     import smpl_extract.filters.common as common
     k = conc(k, 2, 3)
     lens = [L1, L2, L3][:k]
-    hreal = common._cdxtract_roland_deemph_h
+    live = common.CdXtractRolandDeemphFilter()          # taps AND delay offset as the live preset's constructor passes them on
+    hreal = live.h
     N = len(hreal)
+    m0 = int(live.m0)
+    m1 = N - m0 - 1
+    for L in lens[:-1]:
+        if L < N - 1:
+            return 1                                    # a non-final block shorter than the history: the generic FirFilter finding (C19.fir), not decided here
     if REAL:
         f = common.CdXtractRolandDeemphFilter()
         x = np.full(sum(int(v) for v in lens), 32767, dtype=np.int16)
@@ -237,7 +243,7 @@ def h_preset(k: int, L1: int, L2: int, L3: int, o: int, t: int) -> int:
         split = np.concatenate(parts)
         return 1 if (len(one) == len(split) == len(x) and bool((one == split).all())) else 0
     FirFilter = _abstract_cls()
-    f = FirFilter(Arr(N, lambda i: ZERO, hreal.dtype.str), 0)
+    f = FirFilter(Arr(N, lambda i: ZERO, hreal.dtype.str), m0)
     outs, base = [], 0
     for L in lens:
         outs.append(f.process(Arr(L, (lambda b: (lambda i: b + i))(base), "<i2")))
@@ -256,7 +262,7 @@ def h_preset(k: int, L1: int, L2: int, L3: int, o: int, t: int) -> int:
                 if w.dtype != one_block_dtype:
                     return 0                        # the same sample would be accumulated in another precision than in the one-block run
                 src = w.x.at(o - b0 + t)
-                want = o - (N - 1) + t
+                want = o - m1 + t
                 if want < 0 or want >= base:
                     want = ZERO
                 return 1 if src == want else 0
@@ -444,7 +450,7 @@ def obligations(tier, seed):
                   "N <= 8, blocks 1..12 samples"))
     obs.append(ob("C19.fir/3-blocks", "h_blocks", ["k == 3"],
                   "taps N, delay m0, block lengths, output index, tap", "N <= 8, blocks 1..12 samples"))
-    obs.append(ob("C19.preset/cdxtract", "h_preset", [], "2 or 3 block lengths, output index, tap", "CDXtract taps (8) from the live module, int16 input, blocks 7..12"))
+    obs.append(ob("C19.preset/cdxtract", "h_preset", [], "2 or 3 block lengths, output index, tap", "taps (8) and delay offset as the live preset constructor passes them, int16 input; non-final blocks 7..12, final block 1..12"))
     obs.append(ob("C19.reset", "h_reset", [], "taps, delay, block lengths, output index, tap", "N <= 8, blocks N-1..12"))
     for which in ("fir", "iir"):
         obs.append(dict(name=f"C19.sat/{which}", engine="P", module="vf.props.c19", func="p_sat", params={"which": which}, timeout=120,
